@@ -4,6 +4,7 @@ import itertools
 import random
 
 from core import proto
+from . import common
 from .common import case, guarded, rand_weak_order
 
 ID = "C07"
@@ -363,19 +364,11 @@ def _wrap(r, f):
 
 
 def _snapshot(inst):
-    """everything a later reader of the instance can see (deep copy; tuples are immutable)"""
-    return {"multiplicity": dict(inst.multiplicity), "multiplicity keys": list(inst.multiplicity),
-            "orders": list(inst.orders),
-            "num_voters": inst.num_voters, "num_unique_orders": inst.num_unique_orders,
-            "num_alternatives": inst.num_alternatives, "alternatives_name": dict(inst.alternatives_name),
-            "data_type": inst.data_type}
+    return common.snapshot(inst)
 
 
 def _snap_diff(before, after):
-    for k in before:
-        if before[k] != after[k] or type(before[k]) is not type(after[k]):
-            return "%s was %r, is now %r" % (k, before[k], after[k])
-    return None
+    return common.snap_diff(before, after)
 
 
 def _history(pl, seq, via_parser):
